@@ -151,7 +151,7 @@ Qed.
 Lemma unmarshal_agrees : forall t, ints_ok t = true -> unmarshal_value t = Some (spec_of_json false t).
 Proof.
   induction t as [| b | i z b | s | l IH | l IH] using jtree_ind2; intros H; try reflexivity.
-  - destruct i; cbn [ints_ok] in H; cbn [unmarshal_value spec_of_json]; [rewrite H|]; reflexivity.
+  - destruct i; cbn [ints_ok] in H; cbn [unmarshal_value spec_of_json]; rewrite H; reflexivity.
   - cbn [ints_ok] in H. cbn [unmarshal_value spec_of_json].
     rewrite (opt_map_all_some unmarshal_value (spec_of_json false) l); [reflexivity|].
     rewrite Forall_forall in *. intros x Hx. apply IH; [exact Hx|].
@@ -208,6 +208,7 @@ Lemma convert_agrees : forall t, exact_tokens t = true -> keys_ok t = true -> co
 Proof.
   induction t as [| b | i z b | s | l IH | l IH] using jtree_ind2; intros H K; try reflexivity.
   - cbn [exact_tokens] in H. unfold token_exact in H. cbn [convert_go spec_of_json]. unfold number_of_float.
+    apply andb_prop in H. destruct H as [_ H].
     destruct i.
     + apply andb_prop in H. destruct H as [Hz Hb]. rewrite Hz.
       destruct (f_integral b) as [z'|]; [|discriminate].
@@ -238,9 +239,22 @@ Proof.
       apply andb_prop in K0. destruct K0 as [K0 _]. apply negb_true_iff in K0. exact K0.
 Qed.
 
+Lemma exact_all_finite : forall t, exact_tokens t = true -> all_finite t = true.
+Proof.
+  induction t as [| b | i z b | s | l IH | l IH] using jtree_ind2; intros H; try reflexivity.
+  - cbn [exact_tokens] in H. unfold token_exact in H. apply andb_prop in H. apply H.
+  - cbn [exact_tokens] in H. cbn [all_finite]. rewrite forallb_forall in *. rewrite Forall_forall in IH.
+    intros x Hx. apply IH; [exact Hx|apply H; exact Hx].
+  - cbn [exact_tokens] in H. cbn [all_finite]. rewrite forallb_forall in *. rewrite Forall_forall in IH.
+    intros x Hx. apply IH; [exact Hx|apply H; exact Hx].
+Qed.
+
 Lemma decode_assoc_agrees_l : forall t, exact_tokens t = true -> keys_ok t = true ->
   decode_assoc t = Some (spec_of_json true t).
-Proof. intros t H K. unfold decode_assoc. rewrite convert_agrees by assumption. reflexivity. Qed.
+Proof.
+  intros t H K. unfold decode_assoc. rewrite exact_all_finite by exact H.
+  rewrite convert_agrees by assumption. reflexivity.
+Qed.
 
 (* ------------------------------------------------------------------ J4: the reference reading round-trips *)
 Lemma spec_roundtrip_l : forall ib assoc v, spec_ok v = true ->
@@ -298,6 +312,12 @@ Proof.
     inversion H; subst. constructor; [exact E|apply IH; reflexivity].
 Qed.
 
+Lemma f_integral_finite : forall b z, f_integral b = Some z -> f_finite b = true.
+Proof.
+  intros b z H. unfold f_integral in H. unfold f_finite.
+  destruct (f_exp b =? 2047); [discriminate|reflexivity].
+Qed.
+
 Lemma spec_tree_ints : forall ib v t, spec_ok v = true -> spec_to_json ib v = Some t -> ints_ok t = true.
 Proof.
   intros ib v. induction v as [| b | z | b | s | l IH | l IH | l IH] using pval_ind2; intros t Hs Ht;
@@ -305,7 +325,7 @@ Proof.
   - inversion Ht; reflexivity.
   - inversion Ht; reflexivity.
   - inversion Ht; subst. exact Hs.
-  - destruct (f_finite b); inversion Ht; reflexivity.
+  - destruct (f_finite b) eqn:F; inversion Ht; subst. cbn [ints_ok]. exact F.
   - inversion Ht; reflexivity.
   - destruct (opt_map_all (spec_to_json ib) l) as [ts|] eqn:E; [|discriminate]. inversion Ht; subst.
     apply opt_map_all_inv in E. cbn [spec_ok] in Hs. cbn [ints_ok].
@@ -333,7 +353,9 @@ Proof.
     cbn [spec_to_json] in Ht.
   - inversion Ht; split; reflexivity.
   - inversion Ht; split; reflexivity.
-  - inversion Ht; subst. split; [|reflexivity]. cbn [exact_tokens]. unfold token_exact. cbn [spec_ok] in Hs. rewrite Hs. exact Ha.
+  - inversion Ht; subst. split; [|reflexivity]. cbn [exact_tokens]. unfold token_exact. cbn [spec_ok] in Hs. rewrite Hs.
+    cbn [assoc_ok] in Ha. destruct (f_integral (ib z)) as [z'|] eqn:FI; [|discriminate].
+    rewrite (f_integral_finite _ _ FI). exact Ha.
   - destruct (f_finite b); inversion Ht; subst. split; [exact Ha|reflexivity].
   - inversion Ht; split; reflexivity.
   - destruct (opt_map_all (spec_to_json ib) l) as [ts|] eqn:E; [|discriminate]. inversion Ht; subst.
